@@ -13,7 +13,7 @@ WORDS = ["alpha", "β-eta", "ga mma", "😀x", "d:e", "#h", "@at", "|p", "\\b", 
          "e\u0301", "\u00a0nb", "x\u2003y", "𝔘", "<h1>", "<>", "<<h1>>", "\\n", "%s", "{0}", "\u200b", "ü", "日本語", "\x0b", "\r"]
 SAFE_WORDS = [w for w in WORDS if w not in ("\r",)]
 # examples header names: ordinary ones and ones hostile to pattern-based substitution
-HDRS = ["h1", "h2", "h3", "a(b", "a.b", "$x", "\\\\", "<h1>", "[x]", "+", "*", "a\\|b", "(?i)", "{2}", "^", "h1)", "é", "😀", "x y"]
+HDRS = ["h1", "h2", "h3", "\\nkey", "key\\n", "a(b", "a.b", "$x", "\\\\", "<h1>", "[x]", "+", "*", "a\\|b", "(?i)", "{2}", "^", "h1)", "é", "😀", "x y"]
 
 
 class Gen:
@@ -47,7 +47,7 @@ class Gen:
     def tags(self):
         for _ in range(self.r.randint(0, 2)):
             self.out.append(self.ind() + self.r.choice([" ", "  ", ""]).join(
-                "@" + self.r.choice(["t1", "t2", "😀", "a#b", "x-y", "t1", "@", "é"]) for _ in range(self.r.randint(1, 3)))
+                "@" + self.r.choice(["t1", "t2", "😀", "a#b", "x-y", "t1", "@", "é"] + (["a\u00a0b", "c\u3000d", "e\u2003"] if self.r.random() < 0.03 else [])) for _ in range(self.r.randint(1, 3)))
                 + self.r.choice(["", " #c", "  ", " # @not"]))
             self.noise()
 
@@ -79,7 +79,7 @@ class Gen:
         for _ in range(self.r.randint(0, 4)):
             self.out.append(self.r.choice([i, i + "  ", "", self.ind()]) + self.r.choice(
                 [self.txt(), "", self.kw("given") + "x", "@t", "#c", "| a |", '"""' if d != '"""' else "```", self.kw("scenario") + ": s",
-                 "\\\"\\\"\\\"", "\\`\\`\\`", "   ", "<h1> and <h2>", "# language: no"]))
+                 "\\\"\\\"\\\"", "\\`\\`\\`", "   ", "<h1> and <h2>", "# language: no", "\\\"\"\" x \"\\\"\"", "a \\\"\\\"\" b \\`\\``", "less  \t"]))
         self.out.append(i + d + self.r.choice(["", " ", "  junk"]))
 
     def step(self):
@@ -99,7 +99,7 @@ class Gen:
         if self.r.random() < 0.85:
             n = self.r.randint(1, 3)
             i = self.ind()
-            hs = ["h%d" % (k + 1) for k in range(n)] if self.r.random() < 0.6 else self.r.sample(HDRS, n)
+            hs = ["h%d" % (k + 1) for k in range(n)] if self.r.random() < 0.6 else [self.r.choice(HDRS) for _ in range(n)]     # (repeated names allowed)
             self.out.append(i + "|" + "|".join(" %s " % h for h in hs) + "|")
             self.noise()
             for _ in range(self.r.randint(0, 3)):
